@@ -191,18 +191,15 @@ def parseMats (j : Json) : Except String (List SiteMats) :=
         let es ← listOf (fun e => do
           match ← getArr e with
           | [r, c, x, y] =>
-            let fx ← match x.getNum? with | .ok v => pure v.toFloat | .error e => throw e
-            let fy ← match y.getNum? with | .ok v => pure v.toFloat | .error e => throw e
+            let fx := Float.ofBits (← getNat x).toUInt64
+            let fy := Float.ofBits (← getNat y).toUInt64
             return (← getNat r, ← getNat c, (⟨fx, fy⟩ : CF))
           | _ => throw "bad entry") es
         return (← getStr n, es)
       | _ => throw "bad op") (← field s "ops")
     return (⟨d, ops⟩ : SiteMats)) j
 
-def floatJson (x : Float) : Json :=
-  match JsonNumber.fromFloat? x with
-  | .inr n => Json.num n
-  | .inl s => Json.str s
+def floatJson (x : Float) : Json := Json.num (JsonNumber.fromNat x.toBits.toNat)
 
 def handleModel (j : Json) : Except String Json := do
   let L ← getNat (← field j "L")
@@ -211,6 +208,7 @@ def handleModel (j : Json) : Except String Json := do
   let sites ← listOf parseSite (← field j "sites")
   let calls ← getArr (← field j "calls")
   let window ← getNat (fieldD j "window" (1 : Nat))
+  let siteOf ← natList (← field j "site_of")
   let mut m : Model GQ := Model.empty L explicit
   let mut raised : List Json := []
   for (c, n) in calls.zipIdx do
@@ -227,15 +225,16 @@ def handleModel (j : Json) : Except String Json := do
   let tlOn := ot.toTermListS
   let tlCt := match ct with | .plain c => c.toTermListS | .multi mt => mt.toTermListS
   let small (_ : GQ) : Bool := false
-  let tlExp : STermList GQ := if infinite then [] else m.exp.toTermListFinite small
   let Lw := L * window
-  let fromTerms : Sym GQ := (STermList.denote Lw (tlOn ++ tlCt ++ tlExp))
+  let tlExp : STermList GQ := if infinite then m.exp.toTermListInfinite small Lw else m.exp.toTermListFinite small
+  let inWin (t : List SOp × GQ) : Bool := t.1.all (fun o => decide (0 ≤ o.site) && decide (o.site < Lw))
+  let fromTerms : Sym GQ := (STermList.denote Lw ((tlOn ++ tlCt ++ tlExp).filter inWin))
   let fromGraph : Sym GQ := if infinite then denoteGraphWindow g window else denoteGraph g
   let cT := canon 0 fromTerms
   let cG := canon 0 fromGraph
   -- hermiticity of the represented formal sum, with the name-wise hc of every site
   let hcAt (k : Nat) (name : String) : String :=
-    match sites[k % L]? with
+    match sites[siteOf.getD (k % L) 0]? with
     | some st => hcName st.hc name
     | none => name
   let dag : Sym GQ := fromGraph.map (fun p => ((p.1.zipIdx).map (fun (n, k) => hcAt k n), GQ.conj p.2))
